@@ -72,6 +72,30 @@ def vec_jobs(names, cases, maxlen, stds=('17',)):
     return jobs
 
 
+def fuzz_parts(prop, tier, seed, kinds, crash_is_violation):
+    """libFuzzer campaigns belong to the thorough tier only"""
+    if tier != 'thorough':
+        return []
+    from . import fuzz
+    cfgs = []
+    if 'vec' in kinds:
+        cfgs += fuzz.FUZZ_VEC
+    if 'fs' in kinds:
+        cfgs += fuzz.FUZZ_FS
+    if 'ss' in kinds:
+        cfgs += fuzz.FUZZ_SS
+    if prop == 'C05':
+        cfgs = [c for c in cfgs if c.startswith(('sv_', 'fcv_', 'ss_'))]
+    if prop == 'C06':
+        cfgs = [c for c in cfgs if 'fcv' not in c]
+    if prop == 'C14':
+        cfgs = [c for c in cfgs if c.startswith('vec_') or ('_ntr' not in c and '_mo' not in c)]
+    rule = ('coverage-guided mutation (libFuzzer) of the same 5-byte op tapes, one campaign per configuration, semantic oracles of the interpreter inside the '
+            'target; non-trivial / distinct as for the rapidcheck histories of this property')
+    cov, viol, wall = fuzz.run(prop, cfgs, seed, runs=400000, max_time=1500, rule=rule, crash_is_violation=crash_is_violation)
+    return [Part('libfuzzer_campaigns', cov, viol, wall)]
+
+
 VEC_RULES = {
     'C01': 'random op tapes (rapidcheck, 49 op codes over a pool of 3 containers) per configuration; non-trivial = >=6 mutating ops and '
            'at least one boundary feature (inline->heap growth, heap->inline shrink, move/swap across storage states or unequal fill, '
@@ -145,6 +169,7 @@ ASSUME_COMMON = ['the reference model is libstdc++ std::vector<int>/std::set<int
 def check_C01(tier, seed, t0):
     cases, maxlen = budget(tier, (20000, 60), (400000, 80))
     parts = [interp_part('C01', 'vector_histories', vec_jobs([n for n, _ in C.VEC_CONFIGS], cases, maxlen), seed, VEC_RULES['C01'], True)]
+    parts += fuzz_parts('C01', tier, seed, ('vec',), True)
     return finish('C01', tier, seed, 'exploration', parts, VEC_RULES['C01'], ASSUME_COMMON, t0)
 
 
@@ -158,6 +183,7 @@ def check_C02(tier, seed, t0):
                              'SmallSet tapes with identity-tracking elements; non-trivial = >=5 mutating ops crossing the N boundary', True))
     parts.append(interp_part('C02', 'flatset_histories', fs_jobs(fsn, cases, maxlen) + fs_jobs(C.FS_MULTISTD, cases, maxlen, stds=('11', '14', '20')), seed,
                              'FlatSet tapes with identity-tracking elements; non-trivial = >=5 mutating ops incl. bulk insert/merge/hint/node/erase-range/hand-over', True))
+    parts += fuzz_parts('C02', tier, seed, ('vec', 'fs', 'ss'), True)
     return finish('C02', tier, seed, 'exploration', parts, VEC_RULES['C02'], ASSUME_COMMON, t0)
 
 
@@ -169,6 +195,7 @@ def check_C05(tier, seed, t0):
                              'SmallSet tapes with merges/copies/swaps weighted up; per-set flag "never held more than N" (inherited through copy/move/swap, '
                              'cleared by merging with a set that lost it); oracle: zero allocator requests and zero malloc/new in every op window whose '
                              'operands all carry the flag, elements inside the object; non-trivial = >=4 mutating ops with a merge and no set ever exceeding N', False))
+    parts += fuzz_parts('C05', tier, seed, ('vec', 'ss'), False)
     return finish('C05', tier, seed, 'exploration', parts, VEC_RULES['C05'],
                   ASSUME_COMMON + ['malloc/new are counted through __sanitizer_install_malloc_and_free_hooks inside op windows'], t0)
 
@@ -182,12 +209,17 @@ def check_C06(tier, seed, t0):
                              'SmallSet tapes on ledger allocators (std::set nodes and FlatSet buffers); non-trivial = >=5 mutating ops crossing the N boundary', False))
     parts.append(interp_part('C06', 'flatset_histories', fs_jobs(fsn, cases, maxlen), seed,
                              'FlatSet tapes on ledger allocators; non-trivial = >=5 mutating ops with a vector hand-over (FlatSet(vector&&), operator=(vector&&), steal_vector) or a range longer than 16', False))
+    parts += fuzz_parts('C06', tier, seed, ('vec', 'fs', 'ss'), False)
     return finish('C06', tier, seed, 'exploration', parts, VEC_RULES['C06'], ASSUME_COMMON + ['all allocator instances compare equal'], t0)
 
 
 def check_C07(tier, seed, t0):
     cases, maxlen = budget(tier, (20000, 60), (300000, 80))
-    parts = [interp_part('C07', 'vector_histories', vec_jobs([n for n, _ in C.VEC_CONFIGS], cases, maxlen), seed, VEC_RULES['C07'], False)]
+    parts = [interp_part('C07', 'vector_histories', vec_jobs([n for n, _ in C.VEC_CONFIGS], cases, maxlen), seed, VEC_RULES['C07'], False),
+             enum_part('C07', 'swap2_pairs_size_le_capacity', [u for u in c13_units() if u.name.endswith(('_int', '_tm'))], seed, tier,
+                       'the C13 grid of swap2 between every ordered pair of vector flavours (int and a type with non-noexcept moves), here only for the '
+                       'clause size() <= capacity() after the call, whether it returned or threw', crash_is_violation=False, shards=4)]
+    parts += fuzz_parts('C07', tier, seed, ('vec',), False)
     return finish('C07', tier, seed, 'exploration', parts, VEC_RULES['C07'], ASSUME_COMMON, t0)
 
 
@@ -232,6 +264,7 @@ def check_C10(tier, seed, t0):
     parts = [enum_part('C10', 'exhaustive_grid', [enum_unit('exh_c10', 'targets/exh_c10.cpp')], seed, tier, C10_GRID_RULE),
              interp_part('C10', 'vector_histories', vec_jobs(names, cases, maxlen), seed, VEC_RULES['C10'], True, crash_class_codes=list(range(36, 44)))]
     parts[1].coverage['exhaustive'] = False
+    parts += fuzz_parts('C10', tier, seed, ('vec',), True)
     return finish('C10', tier, seed, 'exploration', parts, C10_GRID_RULE + ' || histories: ' + VEC_RULES['C10'], ASSUME_COMMON, t0)
 
 
@@ -243,7 +276,7 @@ C13_GRID_RULE = ('every ordered pair of 9 vector flavours (vector<amc,u32>, vect
 
 
 def c13_units():
-    return [enum_unit('exh_c13_%s' % n, 'targets/exh_c13.cpp', defines={'VF_CAT': str(i), 'VF_TNAME': '"exh_c13_%s"' % n}) for i, n in enumerate(('int', 'tr', 'ntr'))]
+    return [enum_unit('exh_c13_%s' % n, 'targets/exh_c13.cpp', defines={'VF_CAT': str(i), 'VF_TNAME': '"exh_c13_%s"' % n}) for i, n in enumerate(('int', 'tr', 'ntr', 'tm'))]
 
 
 def check_C13(tier, seed, t0):
@@ -251,6 +284,7 @@ def check_C13(tier, seed, t0):
     parts = [enum_part('C13', 'exhaustive_pairs', c13_units(), seed, tier, C13_GRID_RULE, shards=4),
              interp_part('C13', 'vector_histories_same_type', vec_jobs([n for n, _ in C.VEC_CONFIGS], cases, maxlen), seed, VEC_RULES['C13'], True, crash_class_codes=[26])]
     parts[1].coverage['exhaustive'] = False
+    parts += fuzz_parts('C13', tier, seed, ('vec',), True)
     return finish('C13', tier, seed, 'exploration', parts, C13_GRID_RULE + ' || histories: ' + VEC_RULES['C13'], ASSUME_COMMON, t0)
 
 
@@ -263,6 +297,7 @@ def check_C14(tier, seed, t0):
                              'FlatSet-backed SmallSet tapes with RELOCATE; non-trivial = relocation followed by >=3 mutating ops', True, crash_class_codes=[28]))
     parts.append(interp_part('C14', 'flatset_histories', fs_jobs(fsn, cases, maxlen), seed,
                              'FlatSet tapes with RELOCATE; non-trivial = relocation followed by >=3 mutating ops', True, crash_class_codes=[29]))
+    parts += fuzz_parts('C14', tier, seed, ('vec', 'fs', 'ss'), True)
     return finish('C14', tier, seed, 'exploration', parts, VEC_RULES['C14'], ASSUME_COMMON, t0)
 
 
@@ -274,6 +309,7 @@ FS_RULE = ('random op tapes (31 op codes over a pool of 3 sets + 2 sets of a sib
 def check_C03(tier, seed, t0):
     cases, maxlen = budget(tier, (30000, 60), (400000, 80))
     parts = [interp_part('C03', 'flatset_histories', fs_jobs([n for n, _ in C.FS_CONFIGS], cases, maxlen), seed, FS_RULE, True)]
+    parts += fuzz_parts('C03', tier, seed, ('fs',), True)
     return finish('C03', tier, seed, 'exploration', parts, FS_RULE, ASSUME_COMMON, t0)
 
 
@@ -289,6 +325,7 @@ def check_C04(tier, seed, t0):
     cases, maxlen = budget(tier, (30000, 60), (400000, 80))
     names = [n for n, _ in C.SS_CONFIGS]
     parts = [interp_part('C04', 'smallset_histories', ss_jobs(names, cases, maxlen) + ss_jobs(names[:4], cases, maxlen, stds=('20',)), seed, SS_RULE4, True)]
+    parts += fuzz_parts('C04', tier, seed, ('ss',), True)
     return finish('C04', tier, seed, 'exploration', parts, SS_RULE4, ASSUME_COMMON, t0)
 
 
@@ -296,6 +333,7 @@ def check_C11(tier, seed, t0):
     cases, maxlen = budget(tier, (30000, 60), (400000, 80))
     names = [n for n, _ in C.SS_CONFIGS]
     parts = [interp_part('C11', 'smallset_histories', ss_jobs(names, cases, maxlen) + ss_jobs(names[:4], cases, maxlen, stds=('20',)), seed, SS_RULE11, True)]
+    parts += fuzz_parts('C11', tier, seed, ('ss',), True)
     return finish('C11', tier, seed, 'exploration', parts, SS_RULE11, ASSUME_COMMON, t0)
 
 
